@@ -201,6 +201,16 @@ Definition syncs (o : outcome) : bool := match o with OSyncFail => false | _ => 
 (* the plugin still serves requests once the "later" of its outcome has come *)
 Definition survives (o : outcome) : bool := match o with OGood => true | _ => false end.
 
+(* Time.  plugin.synchronize wraps every call in its OWN context.WithTimeout(getPluginRequestTimeout()): a plugin
+   that would otherwise be kept but takes longer than the time-out T to answer Synchronize (tm p, any value above T
+   for one that hangs) fails its synchronisation — and nothing else changes; the time another plugin takes enters
+   nowhere *)
+Definition timed_outcome (T : Z) (tm : discovered -> Z) (oc : discovered -> outcome) (p : discovered) : outcome :=
+  match oc p with
+  | OGood | ODieLater | OHangLater => if (tm p <=? T)%Z then oc p else OSyncFail
+  | o => o
+  end.
+
 (* first loop of startPlugins: launch + start, failures are logged and skipped (continue) *)
 Definition started (oc : discovered -> outcome) (ds : list discovered) : list discovered :=
   filter (fun p => (launches (oc p) && starts (oc p))%bool) ds.
@@ -290,6 +300,13 @@ Definition attempt_world (calls : bool) (oc : discovered -> outcome) (ds : list 
                 {| rp_d := p; rp_listed := kept; rp_conn := kept; rp_closed := negb kept;
                    rp_proc := if kept then PRunning else PGone |})
       (filter (fun p => launches (oc p)) ds).
+
+(* what start_world holds about one plugin: a function of the SyncFn's behaviour and of the plugin's OWN outcome *)
+Definition start_record (calls fails : bool) (o : outcome) (p : discovered) : rplugin :=
+  let kept := (starts o && (negb calls || syncs o))%bool in
+  if fails
+  then {| rp_d := p; rp_listed := false; rp_conn := if kept then false else kept; rp_closed := negb kept; rp_proc := PGone |}
+  else {| rp_d := p; rp_listed := kept; rp_conn := kept; rp_closed := negb kept; rp_proc := if kept then PRunning else PGone |}.
 
 (* r.plugins *)
 Definition r_plugins (w : list rplugin) : list rplugin := filter rp_listed w.
